@@ -188,7 +188,7 @@ fn w<S: AsRef<[u8]>>(s: S) -> Vec<u8> {
 
 fn gen_lang(r: &mut Rng) -> Vec<u8> {
     if r.chance(2, 3) {
-        w(r.pick(&["en", "fr", "und", "zh", "sr", "ar", "de", "abc", "abcde", "abcdefgh", "he", "uz", "az", "ku"]))
+        w(r.pick(&["en", "fr", "und", "zh", "sr", "ar", "de", "abc", "abcde", "abcdefgh", "he", "uz", "az", "ku", "mul", "mis", "zxx", "yue", "mn", "pa", "ms", "ha", "eo"]))
     } else if r.chance(1, 2) {
         rand_word(r, ALPHA, 2, 3)
     } else {
@@ -197,14 +197,14 @@ fn gen_lang(r: &mut Rng) -> Vec<u8> {
 }
 fn gen_script(r: &mut Rng) -> Vec<u8> {
     if r.chance(2, 3) {
-        w(r.pick(&["Latn", "Cyrl", "Arab", "Hant", "Hebr", "Mong"]))
+        w(r.pick(&["Latn", "Cyrl", "Arab", "Hant", "Hebr", "Mong", "Zzzz", "Zyyy", "Zinh", "Hans", "Jpan", "Adlm", "Thaa", "Grek", "Deva"]))
     } else {
         rand_word(r, ALPHA, 4, 4)
     }
 }
 fn gen_region(r: &mut Rng) -> Vec<u8> {
     if r.chance(2, 3) {
-        w(r.pick(&["US", "GB", "419", "001", "RS", "AF", "CN"]))
+        w(r.pick(&["US", "GB", "419", "001", "RS", "AF", "CN", "ZZ", "XX", "AA", "QO", "EU", "999", "000", "150", "TW", "MN", "EG", "ME"]))
     } else if r.chance(1, 2) {
         rand_word(r, ALPHA, 2, 2)
     } else {
@@ -213,7 +213,7 @@ fn gen_region(r: &mut Rng) -> Vec<u8> {
 }
 fn gen_variant(r: &mut Rng) -> Vec<u8> {
     if r.chance(2, 3) {
-        w(r.pick(&["macos", "valencia", "1996", "1abc", "posix", "abcde", "abcdefgh", "fonipa", "12345"]))
+        w(r.pick(&["macos", "valencia", "1996", "1abc", "posix", "abcde", "abcdefgh", "fonipa", "12345", "rozaj", "1606nict", "ekavsk", "zzzzz"]))
     } else if r.chance(1, 2) {
         rand_word(r, ALNUM, 5, 8)
     } else {
@@ -224,7 +224,7 @@ fn gen_variant(r: &mut Rng) -> Vec<u8> {
 }
 fn gen_type(r: &mut Rng) -> Vec<u8> {
     if r.chance(3, 4) {
-        w(r.pick(&["buddhist", "gregory", "true", "latn", "h12", "abc", "foo", "bar", "hybrid", "abc12345", "123"]))
+        w(r.pick(&["buddhist", "gregory", "true", "latn", "h12", "abc", "foo", "bar", "hybrid", "abc12345", "123", "false", "yes", "und", "root", "zzzzzzzz", "000"]))
     } else {
         rand_word(r, ALNUM, 3, 8)
     }
@@ -414,10 +414,65 @@ fn stream_wf(thorough: bool, seed: u64, out: &mut dyn Write) {
     let mut r = Rng::new(seed ^ 0x5745_4C4C);
     let n = if thorough { 400_000 } else { 60_000 };
     for i in 0..n {
-        let s = gen_shape(&mut r, i % 10 == 0);
+        let mut s = gen_shape(&mut r, i % 10 == 0);
+        if i % 97 == 5 {
+            lengthen(&mut r, &mut s, i / 97);
+        }
         let style = (i % 3) as u8;
         let input = render(&mut r, &s.tokens(), style);
         emit_input(out, &ops, &input);
+    }
+}
+
+/// long inputs: many variants / attributes / keywords / tfields / private tags (sizes around powers of two)
+fn lengthen(r: &mut Rng, s: &mut Shape, k: usize) {
+    let sizes = [9usize, 17, 33, 65, 129, 257, 300];
+    let n = sizes[k % sizes.len()];
+    match (k / sizes.len()) % 5 {
+        0 => {
+            for _ in 0..n {
+                s.variants.push(gen_variant(r));
+            }
+        }
+        1 => {
+            let (attrs, kws) = s.u.take().unwrap_or_default();
+            let mut attrs = attrs;
+            for _ in 0..n {
+                attrs.push(rand_word(r, ALNUM, 3, 8));
+            }
+            s.u = Some((attrs, kws));
+        }
+        2 => {
+            let (attrs, mut kws) = s.u.take().unwrap_or_default();
+            for _ in 0..n.min(120) {
+                let k = gen_key(r);
+                if kws.iter().any(|(k2, _)| k2.eq_ignore_ascii_case(&k)) {
+                    continue;
+                }
+                let nt = r.below(12);
+                kws.push((k, (0..nt).map(|_| gen_type(r)).collect()));
+            }
+            s.u = Some((attrs, kws));
+        }
+        3 => {
+            let (tl, mut fs) = s.t.take().unwrap_or_default();
+            for _ in 0..n.min(120) {
+                let k = gen_tkey(r);
+                if fs.iter().any(|(k2, _)| k2.eq_ignore_ascii_case(&k)) {
+                    continue;
+                }
+                let nt = 1 + r.below(12);
+                fs.push((k, (0..nt).map(|_| gen_type(r)).collect()));
+            }
+            s.t = Some((tl, fs));
+        }
+        _ => {
+            let mut x = s.x.take().unwrap_or_default();
+            for _ in 0..n {
+                x.push(rand_word(r, ALNUM, 1, 8));
+            }
+            s.x = Some(x);
+        }
     }
 }
 
